@@ -2,6 +2,7 @@ package main
 
 import (
 	"fmt"
+	"runtime/debug"
 	"go/types"
 	"sort"
 	"strings"
@@ -10,12 +11,12 @@ import (
 )
 
 // verifyFunction generates all obligations of one function under its contract (fc may be nil: safety sweep).
-func (e *Engine) verifyFunction(fn *ssa.Function, fc *FuncContract) *Ctx {
-	c := e.newCtx(fn, fc)
+func (e *Engine) verifyFunction(fn *ssa.Function, fc *FuncContract) (c *Ctx) {
+	c = e.newCtx(fn, fc)
 	c.external = map[string]bool{}
 	defer func() {
 		if r := recover(); r != nil {
-			c.errorf("engine panic: %v", r)
+			c.errorf("engine panic: %v\n%s", r, debug.Stack())
 		}
 	}()
 	f := c.newFrame(fn, 0, "")
